@@ -1,9 +1,275 @@
-"""Real-form workload shared by the monitors (filled in by hv/scen.py)."""
+"""Real-form workload shared by the solver-level monitors: personas answering
+on demand (hv/scen.py), solved under the boundary wrappers, with the variants
+each property needs (refusal, gate flips, schedules, file/prompt splits)."""
+import random
+
+from hv import hx, scen, drive, trace, oracles
+from hv.common import Result, rng_for, h
+
+YEARS = [2021, 2022, 2023]
+N_QUICK = {'C01': 12, 'C03': 8, 'C04': 10, 'C05': 5, 'C06': 8, 'C12': 10, 'C13': 6}
+N_THOROUGH = {'C01': 400, 'C03': 250, 'C04': 300, 'C05': 120, 'C06': 250, 'C12': 300, 'C13': 150}
+CEILING = 60000
 
 
 def shards(pid, tier):
-    return []
+    n = (N_QUICK if tier == 'quick' else N_THOROUGH)[pid]
+    sp = []
+    fams = scen.FAMILIES
+    groups = [fams[0:4], fams[4:8], fams[8:12]] if tier == 'quick' else [[f] for f in fams]
+    for y in YEARS:
+        for g in groups:
+            sp.append({'kind': 'real', 'year': y, 'families': g, 'n': n if tier == 'quick' else max(1, n // 4)})
+    return sp
+
+
+def traced(p, **kw):
+    with trace.Tracer(ceiling=CEILING) as t:
+        out = scen.solve_persona(p, tracer=t, **kw)
+    tv = trace.TraceView(t.events)
+    return out, tv, t
+
+
+def replay_of(p, variant, spec):
+    d = p.describe()
+    return {'engine': 'scen', 'persona': d, 'variant': variant, 'shard': spec}
+
+
+def real_sig(out, tv):
+    forms = sorted(set(k.split('.')[0].split(':')[0] for k in tv.stored))
+    return h([drive.verdict_class(out), forms, sorted(tv.unimpl)[:4]], 10)
+
+
+BOOL_GATES_CACHE = {}
+
+
+def bool_inputs_read(tv):
+    return sorted({r[0] for r in tv.input_reads if r[1] == 'value' and r[2] is False})
+
+
+def key_line(msg):
+    """first qualified line name in a message (mechanism key component)"""
+    import re
+    m = re.search(r"([0-9a-z_\-]+(?::[a-z0-9]+)?\.[0-9a-z_]+)", msg)
+    if not m:
+        return '?'
+    k = m.group(1)
+    f, b = k.split('.', 1)
+    return f.split(':')[0] + '.' + b
 
 
 def run_shard(pid, spec, tier, seed):
-    raise NotImplementedError
+    res = Result()
+    year = spec['year']
+    rng = rng_for(pid, 'real', seed, spec)
+    for fam in spec['families']:
+        for p in scen.personas(seed, year, fam, spec['n']):
+            run_case(pid, p, rng, res, spec, tier)
+    return res
+
+
+def viol(res, pid, year, suffix, msg, p, variant, spec):
+    res.violation(f'{pid}|real|{year}|{suffix}|{key_line(msg)}', f'{p.year} {p.family} {p.key} [{variant}]: {msg}', replay_of(p, variant, spec))
+
+
+def run_case(pid, p, rng, res, spec, tier):
+    year = p.year
+    out, tv, t = traced(p)
+    res.evaluations += 1
+    res.count('real_solves')
+    res.count('real_' + drive.verdict_class(out).split(':')[0])
+    for k, n in tv.counts().items():
+        res.count('ev_' + k, n)
+    res.distinct.add('R' + real_sig(out, tv))
+    answers = dict(p.answers)
+    if res.counters['real_solves'] == 1:
+        res.sample({'persona': p.describe(), 'verdict': drive.verdict_class(out), 'prompts': len(tv.prompts), 'lines_stored': len(tv.stored)})
+
+    def fresh(overrides=None):
+        return scen.Persona(p.year, p.family, p.key, overrides=dict(answers, **(overrides or {})))
+
+    if pid == 'C01':
+        for s, m in oracles.c01(out, tv):
+            viol(res, pid, year, s, m, p, 'base', spec)
+        nprompts = len(tv.prompts)
+        variants = []
+        for k in sorted({0, rng.randint(0, max(0, nprompts - 1)), rng.randint(0, max(0, nprompts - 1)), max(0, nprompts - 1)}):
+            variants.append((f'refuse-from-{k}', {'refuse_from': k}, None))
+        gates = bool_inputs_read(tv)
+        for g in rng.sample(gates, min(4, len(gates))):
+            variants.append((f'flip:{g}', {}, {g: 'yes'}))
+        variants.append(('need_8962', {}, {'1040.need_8962': 'yes'}))
+        variants.append(('oid', {}, {'1040.number_1099-oid': '1'}))
+        for name, kw, ov in variants:
+            q = fresh(ov)
+            o2, tv2, _ = traced(q, **kw)
+            res.evaluations += 1
+            res.count('real_variant_' + name.split(':')[0].split('-')[0])
+            res.count('real_' + drive.verdict_class(o2).split(':')[0])
+            res.count('ev_UNIMPL', len(tv2.unimpl))
+            res.distinct.add('R' + real_sig(o2, tv2))
+            for s, m in oracles.c01(o2, tv2):
+                viol(res, pid, year, s, m, q, name, spec)
+    elif pid == 'C03':
+        for ss in (None, 1, 2):
+            if ss is None:
+                o2, tv2 = out, tv
+            else:
+                o2, tv2, _ = traced(fresh(), schedule_seed=ss)
+                res.evaluations += 1
+            v, n = oracles.c03(o2, tv2)
+            res.count('lines_reevaluated', n)
+            res.add('schedules', str(ss))
+            if any(len(a) > 1 for a in tv2.attempts.values()):
+                res.count('runs_with_reattempts')
+            for s, m in v:
+                viol(res, pid, year, s, m, p, f'schedule:{ss}', spec)
+        k = rng.randint(0, max(0, len(tv.prompts) - 1))
+        o3, tv3, _ = traced(fresh(), refuse_from=k)
+        res.evaluations += 1
+        v, n = oracles.c03(o3, tv3)
+        res.count('lines_reevaluated', n)
+        res.count('partial_solutions_checked')
+        for s, m in v:
+            viol(res, pid, year, s, m, p, f'refuse-from-{k}', spec)
+    elif pid == 'C04':
+        for s, m in oracles.c04(out, tv):
+            viol(res, pid, year, s, m, p, 'base', spec)
+        res.count('closure_checks')
+        if out.exc is None and out.ret is True:
+            res.count('solved_runs')
+            pulled = set(k.split('.')[0] for k in tv.read_keys) - set(p.forms())
+            if pulled:
+                res.count('solved_runs_pulling_forms')
+            for f in pulled:
+                res.add('forms_pulled_by_reference', f.split(':')[0])
+        k = rng.randint(0, max(0, len(tv.prompts) - 1))
+        o3, tv3, _ = traced(fresh(), refuse_from=k)
+        res.evaluations += 1
+        res.count('closure_checks')
+        for s, m in oracles.c04(o3, tv3):
+            viol(res, pid, year, s, m, p, f'refuse-from-{k}', spec)
+    elif pid == 'C06':
+        for s, m in oracles.c06(out, tv):
+            viol(res, pid, year, s, m, p, 'base', spec)
+        res.count('solves')
+        res.count('ev_ATTEMPT', t.n_attempts)
+        nprompts = len(tv.prompts)
+        for k in sorted({0, rng.randint(0, max(0, nprompts - 1)), rng.randint(0, max(0, nprompts - 1))}):
+            o2, tv2, t2 = traced(fresh(), refuse_from=k, schedule_seed=rng.choice([None, 4]))
+            res.evaluations += 1
+            res.count('solves')
+            res.count('solves_with_refusal')
+            res.count('ev_ATTEMPT', t2.n_attempts)
+            res.count('ev_DEP', sum(1 for e in tv2.events if e[0] == 'DEP'))
+            if isinstance(o2.exc, trace.WorkCeiling):
+                viol(res, pid, year, 'work-ceiling', str(o2.exc), p, f'refuse-from-{k}', spec)
+            for s, m in oracles.c06(o2, tv2):
+                viol(res, pid, year, s, m, p, f'refuse-from-{k}', spec)
+    elif pid == 'C12':
+        if out.exc is None:
+            v, n = oracles.c12(out, tv)
+            res.count('stores_checked', n)
+            for ev in tv.events:
+                if ev[0] == 'STORE_LINE':
+                    res.add('real_lines_stored', f'{year}|{key_line(ev[1] + " ")}')
+            for s, m in v:
+                viol(res, pid, year, s, m, p, 'base', spec)
+        elif isinstance(out.exc, TypeError):
+            res.count('typeerror_aborts')
+            lo = [a for a in tv.attempts.items() if a[1][-1][0] == 'error']
+            named = any(l in str(out.exc) for l, _ in lo)
+            if lo and not named:
+                viol(res, pid, year, 'typeerror-does-not-name-line', f'{lo[0][0]} TypeError message {str(out.exc)[:100]!r}', p, 'base', spec)
+    elif pid == 'C13':
+        res.count('prompts_checked', len(tv.prompts))
+        for s, m in oracles.c13(out, tv):
+            viol(res, pid, year, s, m, p, 'base', spec)
+        for ss in (3,):
+            o2, tv2, _ = traced(fresh(), schedule_seed=ss)
+            res.evaluations += 1
+            res.count('prompts_checked', len(tv2.prompts))
+            for s, m in oracles.c13(o2, tv2):
+                viol(res, pid, year, s, m, p, f'schedule:{ss}', spec)
+        if out.exc is None and out.ret is True:
+            # run 2 on the written-back inputs: asks nothing, identical solution
+            q = fresh()
+            o2, tv2, _ = traced(q, file_map=dict(out.final_inputs), refuse_from=0)
+            res.evaluations += 1
+            res.count('histories')
+            if tv2.prompts:
+                viol(res, pid, year, 'second-run-asks', f'second run asked {[x[0] for x in tv2.prompts][:3]}', p, 'run2', spec)
+            if o2.exc is not None or o2.ret is not True or drive.solution_map(o2) != drive.solution_map(out):
+                viol(res, pid, year, 'second-run-differs', f'second run: {drive.verdict_class(o2)} / different solution', p, 'run2', spec)
+            read = {r[0] for r in tv.input_reads} | {r[0] for r in tv2.input_reads}
+            pruned = {k: v for k, v in out.final_inputs.items() if k in read}
+            if len(pruned) < len(out.final_inputs):
+                res.count('histories_with_pruned_inputs')
+                o3, tv3, _ = traced(fresh(), file_map=pruned, refuse_from=0)
+                res.evaluations += 1
+                if tv3.prompts or o3.exc is not None or o3.ret is not True or drive.solution_map(o3) != drive.solution_map(out):
+                    viol(res, pid, year, 'never-read-input-required', f'after deleting never-read inputs the outcome changed: {drive.verdict_class(o3)} prompts {[x[0] for x in tv3.prompts][:3]}', p, 'run3', spec)
+    elif pid == 'C05':
+        from hv.monitors import c05
+        base = c05.canon(out, tv)
+        seqs = {c05.attempt_seq(tv)}
+        variants = []
+        K = 2 if tier == 'quick' else 4
+        for k in range(K):
+            variants.append((f'schedule:{k + 1}', {'schedule_seed': k + 1}))
+        if len(p.forms()) > 1:
+            variants.append(('form-order', {'forms': list(reversed(p.forms()))}))
+        variants.append(('all-in-file', {'file_map': dict(answers), 'refuse_from': 0}))
+        items = sorted(answers.items())
+        rng.shuffle(items)
+        variants.append(('split', {'file_map': dict(items[:len(items) // 2])}))
+        variants.append(('file-layout', {'file_text': layout_text(answers, rng), 'refuse_from': 0}))
+        for name, kw in variants:
+            kw = dict(kw)
+            ft = kw.pop('file_text', None)
+            q = fresh()
+            if ft is not None:
+                cp = drive.config_from(text=ft)
+                kw['file_map'] = drive.final_inputs(cp)
+                res.count('layout_variants')
+            o2, tv2, _ = traced(q, **kw)
+            res.evaluations += 1
+            res.count('variants_compared')
+            seqs.add(c05.attempt_seq(tv2))
+            c = c05.canon(o2, tv2)
+            if c05.refused(tv2) or c05.refused(tv):
+                same = (c[0] == 'solved') == (base[0] == 'solved')
+            else:
+                same = c == base
+            if not same:
+                viol(res, pid, year, name.split(':')[0], 'outcome differs from the natural order: ' + c05._diff(base, c), p, name, spec)
+        if len(seqs) > 1:
+            res.count('cases_with_distinct_orders')
+        for s in seqs:
+            res.distinct.add(s)
+
+
+def layout_text(answers, rng):
+    """The same inputs as an INI text with shuffled sections and keys, mixed
+    key case, comments and blank lines."""
+    secs = {}
+    for q, v in answers.items():
+        s, b = q.split('.', 1)
+        secs.setdefault(s, []).append((b, v))
+    names = list(secs)
+    rng.shuffle(names)
+    lines = ['# generated layout variant', '']
+    for s in names:
+        lines.append(f'[{s}]')
+        kv = secs[s]
+        rng.shuffle(kv)
+        for b, v in kv:
+            if rng.random() < 0.3:
+                lines.append('; a comment')
+            key = b.upper() if rng.random() < 0.3 else b
+            sep = rng.choice([' = ', '=', ': '])
+            lines.append(f'{key}{sep}{v}')
+            if rng.random() < 0.2:
+                lines.append('')
+        lines.append('')
+    return '\n'.join(lines)
